@@ -1,6 +1,7 @@
 package govc
 
 import (
+	"os/exec"
 	"context"
 	"encoding/json"
 	"fmt"
@@ -156,6 +157,18 @@ func runCheck(repo, verif, prop, tier string, t0 time.Time) (int, error) {
 			if r.status != "unsat" {
 				return 2, fmt.Errorf("lemma %s not proved by %s: %s", lf, sc.name, clip(r.out, 300))
 			}
+		}
+	}
+	// thorough tier: the assumed / trusted contracts are run against the real functions
+	conformance := "not run (quick tier)"
+	if tier == "thorough" {
+		script := filepath.Join(verif, "tools", "conformance.sh")
+		if _, err := os.Stat(script); err == nil {
+			out, err := exec.Command("bash", script).CombinedOutput()
+			if err != nil {
+				return 2, fmt.Errorf("an assumed contract failed its conformance test against the real function:\n%s", clip(string(out), 3000))
+			}
+			conformance = "passed: " + strings.Join(strings.Fields(string(out)), " ")
 		}
 	}
 	// vacuity: reachability covers (must NOT be unsat)
@@ -324,6 +337,7 @@ func runCheck(repo, verif, prop, tier string, t0 time.Time) (int, error) {
 			"floor": floors[prop]},
 		"explanation": pe.Note,
 		"lemmas":      lemmaReports,
+		"conformance_of_assumed_contracts": conformance,
 		"evaluations": len(obls), "distinct_nontrivial": len(obls),
 		"rule": "one SMT query per proof obligation generated from /repo's current source; trivially true goals are not emitted, so every counted obligation is non-trivial; names are distinct",
 	}
